@@ -239,7 +239,7 @@ func (w *World) exposedCell(fn *ssa.Function, addr ssa.Value) (bool, string) {
 		if par == nil || idx < 0 {
 			return false, ""
 		}
-		ok := false
+		ok, overwritten := false, false
 		eachInstr(par, func(in ssa.Instruction) {
 			mc, isMC := in.(*ssa.MakeClosure)
 			if !isMC || mc.Fn != fn {
@@ -255,6 +255,25 @@ func (w *World) exposedCell(fn *ssa.Function, addr ssa.Value) (bool, string) {
 			refs := cell.Referrers()
 			if refs == nil {
 				return
+			}
+			// the call that runs the callback must not write its own result over the cell the
+			// callback parked its error in (`err = visit(..., func() { err = … })`)
+			for _, r := range *refs {
+				st, isSt := r.(*ssa.Store)
+				if !isSt || st.Addr != cell {
+					continue
+				}
+				if c := callOfValue(st.Val); c != nil {
+					for _, a := range c.Common().Args {
+						v := a
+						if ct, isCT := v.(*ssa.ChangeType); isCT {
+							v = ct.X
+						}
+						if v == ssa.Value(mc) {
+							overwritten = true
+						}
+					}
+				}
 			}
 			for _, r := range *refs {
 				ld, isLd := r.(*ssa.UnOp)
@@ -277,6 +296,9 @@ func (w *World) exposedCell(fn *ssa.Function, addr ssa.Value) (bool, string) {
 				}
 			}
 		})
+		if overwritten {
+			return false, ""
+		}
 		return ok, "captured variable returned by " + w.Name(par)
 	case *ssa.FieldAddr:
 		_, st, name, ok := fieldOf(a)
